@@ -148,6 +148,8 @@ class MemoryStorage(AbstractStorage):
             else:
                 event.id = 0
             self.db[bucket].append(event)
+            # Return a copy (with the id set), not the stored object itself
+            event = copy.deepcopy(event)
         return event
 
     def delete(self, bucket_id, event_id):
